@@ -128,6 +128,85 @@ func relevant(assumps []*Term, roots []*Term) []*Term {
 	return out
 }
 
+// oneHop selects the assumptions that mention a constant of the roots directly (no transitive
+// closure): a proof from fewer assumptions is still a proof, and obligations over a few ghost
+// scalars at the end of a long function are decided from the handful of facts about them.
+func oneHop(assumps []*Term, roots []*Term, hops int) []*Term {
+	inSet := map[int]bool{}
+	for _, r := range roots {
+		for _, c := range constsOf(r) {
+			inSet[c] = true
+		}
+	}
+	taken := make([]bool, len(assumps))
+	for h := 0; h < hops; h++ {
+		add := map[int]bool{}
+		for i, a := range assumps {
+			if taken[i] {
+				continue
+			}
+			cs := constsOf(a)
+			hit := false
+			for _, c := range cs {
+				if inSet[c] {
+					hit = true
+					break
+				}
+			}
+			if hit {
+				taken[i] = true
+				for _, c := range cs {
+					add[c] = true
+				}
+			}
+		}
+		for c := range add {
+			inSet[c] = true
+		}
+	}
+	var out []*Term
+	for i, a := range assumps {
+		if taken[i] {
+			out = append(out, a)
+		}
+	}
+	return out
+}
+
+// buildNarrow: the obligation with only the assumptions one hop away from the goal (the path
+// condition is kept whole). Used as a first, cheap attempt for very large queries.
+func (eng *Engine) buildNarrow(fc *FuncCtx, o *Obligation) string {
+	if o.expect == "sat" || o.useOverride {
+		return ""
+	}
+	as := fc.assumps[:o.nassump]
+	rel := oneHop(as, []*Term{o.goal}, 1)
+	asserts := append([]*Term{}, rel...)
+	// weaken the path condition to those of its top-level conjuncts that talk about the goal's
+	// constants or about constants of the selected assumptions (proving the goal under a weaker
+	// path condition proves it under the full one)
+	var conj []*Term
+	var flat func(t *Term)
+	flat = func(t *Term) {
+		if t.op == "and" {
+			for _, a := range t.args {
+				flat(a)
+			}
+			return
+		}
+		conj = append(conj, t)
+	}
+	flat(o.pc)
+	roots := append([]*Term{o.goal}, rel...)
+	pcs := oneHop(conj, roots, 1)
+	asserts = append(asserts, And(append(pcs, Not(o.goal))...))
+	var sb strings.Builder
+	fmt.Fprintf(&sb, "; obligation %s (narrow attempt: assumptions one hop from the goal)\n", o.name)
+	sb.WriteString(Script(&Prelude{specs: eng.specs}, asserts, nil))
+	sb.WriteString("(check-sat)\n")
+	return sb.String()
+}
+
 func (eng *Engine) buildScript(fc *FuncCtx, o *Obligation) string {
 	as := fc.assumps[:o.nassump]
 	if o.useOverride {
@@ -260,11 +339,26 @@ func (eng *Engine) solve(body string, o *Obligation, cfg *SolverCfg) {
 		}
 		return false
 	}
+	var log strings.Builder
+	if o.narrow != "" && want == "unsat" {
+		nf := base + ".narrow.smt2"
+		_ = os.WriteFile(nf, []byte(o.narrow), 0o644)
+		ctxn, canceln := context.WithTimeout(context.Background(), cfg.first+2*time.Second)
+		rn := runSolver(ctxn, "z3-new", nf, cfg.first)
+		canceln()
+		fmt.Fprintf(&log, "[z3-new narrow %0.2fs] %s\n", rn.secs, rn.status)
+		if rn.status == "unsat" {
+			o.solver = "z3-new"
+			o.output = log.String()
+			o.status = "discharged"
+			o.secs = time.Since(t0).Seconds()
+			return
+		}
+	}
 	// quick attempt
 	ctx, cancel := context.WithTimeout(context.Background(), cfg.first+2*time.Second)
 	r := runSolver(ctx, "z3-new", o.smt, cfg.first)
 	cancel()
-	var log strings.Builder
 	fmt.Fprintf(&log, "[z3-new %0.2fs] %s\n", r.secs, r.status)
 	if !finish(r) && o.kind == "vacuity" {
 		// satisfiability under quantified assumptions is rarely decided; a vacuity check only
@@ -506,6 +600,9 @@ func (eng *Engine) solveAll(results []*FuncResult, cfg *SolverCfg, filter func(o
 			continue
 		}
 		body := eng.buildScript(j.fc, j.o)
+		if len(body) > 150000 {
+			j.o.narrow = eng.buildNarrow(j.fc, j.o)
+		}
 		wg.Add(1)
 		sem <- struct{}{}
 		go func() {
